@@ -55,7 +55,8 @@
    module with Deviations = {} describes the REPAIRED code (proposed_fixes/EXTCFG-1). *)
 EXTENDS Integers, Sequences, FiniteSets, TLC
 
-CONSTANTS MaxV,          \* database versions 1..MaxV
+CONSTANTS Flavour,       \* "ip" (IpPairing) | "coap" (CoAPPairing: same algorithm, its own _ensure_connected, see LinkUp)
+          MaxV,          \* database versions 1..MaxV
           InitVers,      \* versions the accessory may have at the start
           InitCaches,    \* initial cache entries: 0 = none, 10 * config_num + version (config_num 0: legacy entry)
           MaxGen,        \* pairing objects created (1 + restarts)
@@ -125,11 +126,12 @@ DbChange ==
     /\ accv' = accv + 1 /\ out' = {}
     /\ UNCHANGED <<gen, up, pdesc, pcfg, pacc, cache, w, q, lst, stale>>
 
-\* a call starts: straight to the connection if there is one, else it waits for it
+\* a call starts: straight to the connection if there is one, else it waits for it (CoAP: the first one to wait
+\* starts the connect - "connect" - and is the one the others wait for)
 Start(t, o) ==
     /\ InFlight < MaxTasks
     /\ IF up THEN q' = Append(q, t) /\ w' = w /\ out' = o \cup {O("req", 0, 0, 1)}
-             ELSE w' = Append(w, t) /\ q' = q /\ out' = o
+             ELSE w' = Append(w, t) /\ q' = q /\ out' = o \cup If(Flavour = "coap" /\ w = <<>>, {O("connect", 0, 0, 1)})
 
 \* pairing._async_description_update(description with c# c): a number ABOVE the held one starts a config-change task.
 \* (The tree starts one for every such description; a task for the same or a higher number being in flight
@@ -137,24 +139,38 @@ Start(t, o) ==
 \* reconnect that may be in progress (reconnect_soon; required only while there is no connection).
 Covered(c) == \E s \in {w, q} : \E i \in 1..Len(s) : s[i].k = "cfg" /\ s[i].c >= c
 Spawns(c) == IF c <= pcfg THEN {FALSE} ELSE IF Covered(c) THEN {TRUE, FALSE} ELSE {TRUE}
+\* CoAPPairing calls reconnect_soon when the endpoint changed; the harness keeps the endpoint, so: with the first
+\* description a pairing object is shown
+RSoon == IF Flavour = "coap" THEN (IF pdesc = 0 THEN {{O("rsoon", 0, 0, 1)}} ELSE {{}})
+         ELSE IF up THEN {{}, {O("rsoon", 0, 0, 1)}} ELSE {{O("rsoon", 0, 0, 1)}}
 Desc(c) ==
     /\ c \in 1..accv
     /\ MonotoneDesc => c >= pdesc
     /\ pdesc' = c /\ stale' = FALSE
-    /\ \E spawn \in Spawns(c), rs \in (IF up THEN {{}, {O("rsoon", 0, 0, 1)}} ELSE {{O("rsoon", 0, 0, 1)}}) :
+    /\ \E spawn \in Spawns(c), rs \in RSoon :
          IF spawn
          THEN Start(Task("cfg", c), rs \cup {O("cfgtask", c, 0, 1)})
          ELSE out' = rs /\ UNCHANGED <<w, q>>
     /\ UNCHANGED <<accv, gen, up, pcfg, pacc, cache, lst>>
 
-\* the connection is established: connection_made tells the listeners, then the waiting calls proceed
+\* CoAP: the call that started the connect (the head of w) alone runs the availability listeners; then all proceed
+RelC(ws, A) ==
+    IF ws = <<>> THEN {[sent |-> <<>>, A |-> A, n |-> [i \in Listeners |-> 0], failed |-> <<>>]}
+    ELSE {[sent   |-> (IF d.raised THEN <<>> ELSE <<Head(ws)>>) \o Tail(ws),
+           A      |-> d.left,
+           n      |-> [i \in Listeners |-> IF i \in d.called THEN 1 ELSE 0],
+           failed |-> IF d.raised THEN <<Head(ws)>> ELSE <<>>] : d \in Deliveries(A, "avail")}
+
+\* the connection is established.  IP: connection_made tells the listeners ({}), then the waiting calls proceed, each
+\* running the availability listeners.  CoAP: a connection only comes from the connect a waiting call started
 LinkUp ==
     /\ ~up /\ up' = TRUE
-    /\ \E r \in Rel(w, lst["avail"]) :
+    /\ Flavour = "coap" => w # <<>>
+    /\ \E r \in (IF Flavour = "coap" THEN RelC(w, lst["avail"]) ELSE Rel(w, lst["avail"])) :
          /\ q' = q \o r.sent /\ w' = <<>>
-         /\ lst' = [lst EXCEPT !["ev"] = @ \ OneShot, !["avail"] = r.A]
+         /\ lst' = [lst EXCEPT !["ev"] = IF Flavour = "coap" THEN @ ELSE @ \ OneShot, !["avail"] = r.A]
          /\ stale' = (stale \/ HasCfg(r.failed))
-         /\ out' = {O("event", i, 0, 1) : i \in lst["ev"]}
+         /\ out' = If(Flavour # "coap", {O("event", i, 0, 1) : i \in lst["ev"]})
                    \cup {O("avail", i, 1, r.n[i]) : i \in {j \in Listeners : r.n[j] > 0}}
                    \cup If(r.sent # <<>>, {O("req", 0, 0, Len(r.sent))})
                    \cup Ends(r.failed, 0)
@@ -166,7 +182,7 @@ LinkDown ==
     /\ q' = <<>> /\ out' = Ends(q, 0) /\ stale' = (stale \/ HasCfg(q))
     /\ UNCHANGED <<accv, gen, pdesc, pcfg, pacc, cache, w, lst>>
 
-\* more than the 10 s a call waits for the connection pass
+\* IP: more than the 10 s a call waits for the connection pass; CoAP: the connect fails - every waiting call fails
 Tick ==
     /\ w # <<>>
     /\ w' = <<>> /\ out' = Ends(w, 0) /\ stale' = (stale \/ HasCfg(w))
